@@ -2,6 +2,7 @@ package main
 
 import (
 	"fmt"
+	"go/constant"
 	"go/token"
 	"go/types"
 	"os"
@@ -146,6 +147,7 @@ func load(repo string, opt loadOptions) (*Program, error) {
 	}
 	p.collectFuncs()
 	p.unspillReturns()
+	p.canonComparisons()
 	if len(p.SrcFunc) < 50 {
 		return nil, fmt.Errorf("only %d source functions found; refusing to analyse a stub", len(p.SrcFunc))
 	}
@@ -307,6 +309,67 @@ func recvTypeName(fn *ssa.Function) string {
 		return n.Obj().Name()
 	}
 	return ""
+}
+
+// canonComparisons puts a comparison that has its constant on the left (`nil != err`, `0 == len(s)`, `"" == x`)
+// into the usual order, mirroring the operator: the rules then see one form of it.
+func (p *Program) canonComparisons() {
+	mirror := map[token.Token]token.Token{token.EQL: token.EQL, token.NEQ: token.NEQ, token.LSS: token.GTR, token.GTR: token.LSS, token.LEQ: token.GEQ, token.GEQ: token.LEQ}
+	for _, fn := range p.Funcs {
+		if fn.Blocks == nil || !p.inModule(fn) {
+			continue
+		}
+		for _, b := range fn.Blocks {
+			for _, ins := range b.Instrs {
+				bo, ok := ins.(*ssa.BinOp)
+				if !ok {
+					continue
+				}
+				m, isCmp := mirror[bo.Op]
+				if !isCmp {
+					continue
+				}
+				_, cx := bo.X.(*ssa.Const)
+				_, cy := bo.Y.(*ssa.Const)
+				if cx && !cy {
+					bo.X, bo.Y, bo.Op = bo.Y, bo.X, m
+				}
+				// len(s) == 0 for a string s is s == "" (and len(s) > 0 is s != "")
+				call, isCall := bo.X.(*ssa.Call)
+				if !isCall || len(call.Call.Args) != 1 {
+					continue
+				}
+				if bi, isB := call.Call.Value.(*ssa.Builtin); !isB || bi.Name() != "len" {
+					continue
+				}
+				str := call.Call.Args[0]
+				if bt, isBasic := str.Type().Underlying().(*types.Basic); !isBasic || bt.Info()&types.IsString == 0 {
+					continue
+				}
+				k, isK := bo.Y.(*ssa.Const)
+				if !isK || k.Value == nil || k.Value.Kind() != constant.Int {
+					continue
+				}
+				n, exact := constant.Int64Val(k.Value)
+				if !exact {
+					continue
+				}
+				var op token.Token
+				switch {
+				case (bo.Op == token.EQL && n == 0) || (bo.Op == token.LEQ && n == 0) || (bo.Op == token.LSS && n == 1):
+					op = token.EQL
+				case (bo.Op == token.NEQ && n == 0) || (bo.Op == token.GTR && n == 0) || (bo.Op == token.GEQ && n == 1):
+					op = token.NEQ
+				default:
+					continue
+				}
+				bo.X, bo.Y, bo.Op = str, ssa.NewConst(constant.MakeString(""), str.Type()), op
+				if refs := str.Referrers(); refs != nil {
+					*refs = append(*refs, bo)
+				}
+			}
+		}
+	}
 }
 
 // unspillReturns undoes, where it is safe, what go/ssa does to the return statements of a function that defers: each
